@@ -11,7 +11,7 @@ REPO_SRC = os.path.join(REPO, 'src')
 SCRATCH_BASE = os.environ.get('VERIF_SCRATCH', '/var/tmp')
 OUT_DIR = os.path.join(VERIF_DIR, 'out')
 EVIDENCE_DIR = os.path.join(VERIF_DIR, 'evidence')
-KNOWN_FINDINGS_FILE = os.path.join(VERIF_DIR, 'known_findings.json')
+KNOWN_FINDINGS_FILE = os.environ.get('VERIF_KNOWN_FILE', os.path.join(VERIF_DIR, 'known_findings.json'))
 
 EXIT_HELD = 0
 EXIT_VIOLATION = 1
